@@ -130,11 +130,23 @@ def run(ctx):
         rb = c05.real_thermal(sat, chan, nums, list(prt), list(ict), list(space), c_b)
         if ra[0] == "ok" and rb[0] == "ok" and not np.array_equal(np.nan_to_num(ra[1][:, 0]), np.nan_to_num(rb[1][:, 0])):
             ctx.violation("%s channel %d: a pixel's BT depends on the other pixels of its line" % (sat, chan), payload, cls="pixel-local")
-        # model correspondence on a subset of counts
-        sub = list(range(0, 1024, 64)) + [1023]
+        # ... also for counts beyond the space count (non-positive radiance: no temperature), alone and inside a warm scene
+        for c0 in (min(1023, max(space) + 8), 1023, rng.randint(200, 800)):
+            alone = c05.real_thermal(sat, chan, nums, list(prt), list(ict), list(space), [c0])
+            scene = c05.real_thermal(sat, chan, nums, list(prt), list(ict), list(space), [c0, 300, 420, 380])
+            if alone[0] == "ok" and scene[0] == "ok" and not np.array_equal(alone[1][:, 0], scene[1][:, 0], equal_nan=True):
+                i = int(np.nonzero(~((alone[1][:, 0] == scene[1][:, 0]) | (np.isnan(alone[1][:, 0]) & np.isnan(scene[1][:, 0]))))[0][0])
+                ctx.violation("%s channel %d line %d: count %d reads %s K when calibrated alone and %s K inside a warm scene" % (
+                    sat, chan, i, c0, alone[1][i, 0], scene[1][i, 0]), dict(payload, count=c0), cls="pixel-local")
+                break
+            ctx.case((sat, chan, "local", k, c0), branch="pixel-local")
+        # model correspondence on a subset of counts (a warm scene with two samples beyond the space count, so that no
+        # sample lies just below the space count)
+        sub = [200, 300, 380, 420, 500, 640, min(1023, max(space) + 8), 1023]
+        bt = c05.real_thermal(sat, chan, nums, list(prt), list(ict), list(space), sub)[1]
         j = lambda xs: ",".join(str(x) for x in xs)
         lines.append("c05 %s %d %s %s %s %s %s" % (sat, chan, j(nums), j(prt), j(ict), j(space), j(sub)))
-        pend.append((bt[:, sub], payload))
+        pend.append((bt, payload))
     ctx.extra["worst_anchor_residue_K"] = round(worst_anchor, 6)
     ctx.sample({"worst_anchor_residue_K": round(worst_anchor, 6)})
     if not ctx.driver_ok:
